@@ -7,7 +7,19 @@ from hypothesis import strategies as st
 
 from ..core import Clause, Discard, HarnessError, Violation, call, expect_raises, require
 from ..oracles import post_ref
-from .c16 import make_dataset
+from .c16 import make_dataset as _make_dataset
+
+CONST_VALUES = [-23.025850929940457, 0.1, -1.0 / 3.0, 1e-5, 12345.678, 0.0]
+
+
+def make_dataset(spec, n=None, seed=None):
+    """c16's data set, optionally with some coefficients made constant ("any accumulated data": a floored
+    log-energy column has zero variance and its computed variance may round slightly negative)."""
+    data = _make_dataset(spec, n=n, seed=seed)
+    for j, col in enumerate(spec.get("const") or ()):
+        data[:, col % data.shape[1]] = np.asarray(CONST_VALUES[(j + spec.get("const_val", 0)) % len(CONST_VALUES)], dtype=data.dtype)
+    return data
+
 
 PROPERTY = "C17"
 LEVEL = "exploration"
@@ -128,7 +140,9 @@ def _data_specs():
         F = draw(st.sampled_from([1, 2, 3, 4, 5]))
         mult = st.one_of(st.integers(-50, 50).map(float), st.sampled_from([-50.0, -1.0, -0.01, 0.0, 0.5, 50.0]))
         return {
-            "N": draw(st.sampled_from([1, 2, 3, 5, 8])),
+            "N": draw(st.sampled_from([1, 2, 3, 5, 8, 50, 100])),
+            "const": draw(st.one_of(st.just([]), st.just([]), st.lists(st.integers(0, 4), min_size=1, max_size=2, unique=True))),
+            "const_val": draw(st.integers(0, 5)),
             "m": [draw(mult) for _ in range(F)],
             "s": [draw(st.sampled_from([1e-3, 0.1, 1.0, 1.0, 7.0, 100.0, 1e4])) for _ in range(F)],
             "dtype": draw(st.sampled_from(["f64", "f32"])),
